@@ -14,7 +14,11 @@ NATIVE_LIKE = ("native", "realos")
 def _tf(cfg):
     """The facade as far as newline translation goes: the caller's newline="" (keyword
     arguments are passed to open()) switches universal newlines off on the native path."""
-    return cfg["facade"] if cfg.get("newline") != "empty" else "as-stored"
+    if cfg.get("newline") == "empty":
+        return "as-stored"
+    if "newline" in (cfg.get("explicit_defaults") or ()):
+        return "native"       # newline=None spelled out: universal newlines on a PyFilesystem too
+    return cfg["facade"]
 from ..models import (LoadError, RefSimfile, ref_encoding, ref_load, universal_newlines,
                       DEFAULT_ENCODINGS, dep_roundtrip_ok, gap_classes, ref_emit, serialisable)
 from ..simdisk import (SimDisk, SimKill, InvariantViolation, InjectedOSError, OPEN_W, OPEN_R,
@@ -159,6 +163,13 @@ def generate(prop, rng, run, tier):
         bak = out                      # refused
     else:
         bak = ""                       # falsy: no backup
+    if prop == "C06" and rng.random() < 0.08:
+        # a destination whose parent directory does not exist: the save fails at the open
+        # for writing - and a body that raises must still leave the whole tree untouched
+        if rng.random() < 0.5:
+            out = d + "/newdir/out" + ext
+        else:
+            bak = "/Pack/NoSuchDir/deep/backup" + ext
     # the edit script; values from the repertoire of the encoding the file will be
     # detected in (so that the run stays a C05 run) unless a spoil is planned
     n_ops = rng.randint(0, 6)
@@ -203,6 +214,10 @@ def generate(prop, rng, run, tier):
         cfg["raw_readers"] = True     # binary read streams of the PyFilesystem are raw (short reads)
     if rng.random() < 0.15:
         cfg["newline"] = "empty"      # passed to open(): line breaks as stored, also on the native path
+    if rng.random() < 0.15:
+        # keyword arguments spelled out with the values they default to (a wrapper that
+        # forwards its own defaults): errors=None, newline=None, buffering=-1
+        cfg["explicit_defaults"] = rng.sample(["errors", "newline", "buffering"], rng.randint(1, 3))
     if prop == "C06" and text.isascii() and rng.random() < 0.5:
         # keyword arguments are passed to open(): a caller-chosen error handler
         cfg["errors"] = rng.choice(["replace", "ignore", "strict", "backslashreplace"])
@@ -320,6 +335,8 @@ def run_once(sc, fault=None, body_raise=None, spoil=None, noop_on=None, hooks=No
         kw["errors"] = cfg["errors"]
     if cfg.get("newline") == "empty":
         kw["newline"] = ""
+    for name in cfg.get("explicit_defaults") or ():
+        kw.setdefault(name, -1 if name == "buffering" else None)
     kw["strict"] = bool(cfg.get("strict", True))
     if hooks:
         disk.on_open_w = hooks.get("on_open_w")
@@ -327,7 +344,7 @@ def run_once(sc, fault=None, body_raise=None, spoil=None, noop_on=None, hooks=No
     excs = _exc_makers(lib)
     edit = sc["ops"] if noop_on is None else []
     model = None
-    with Facade(cfg["facade"], disk) as fa:
+    with Facade(cfg["facade"], disk, relative=(spelling == "rel")) as fa:
         kw.update(fa.kw)
         try:
             with lib.simfile.mutate(fa.p(_spell(inp, spelling)),
@@ -688,6 +705,8 @@ def check_c05(sc, res):
     res.stats["probe:facade:" + facade] += 1
     if len(data) > 8192:
         res.stats["probe:multi-chunk-file"] += 1
+    if cfg.get("spelling") == "symlink" and sc["world"].get("symlinks") and facade in NATIVE_LIKE:
+        res.stats["probe:named-through-symlink-dotdot"] += 1
     # --- clause 4: a no-op mutate on the written file leaves its bytes unchanged
     if cfg.get("followup_noop"):
         written = after_files[out_path]
@@ -741,6 +760,9 @@ def _check_open(sc, res, data, enc, kind, expect):
     if cfg.get("try_encodings") is not None:
         kw["try_encodings"] = list(cfg["try_encodings"])
     nlkw = {"newline": ""} if cfg.get("newline") == "empty" else {}
+    for name in cfg.get("explicit_defaults") or ():
+        if name != "buffering":
+            nlkw.setdefault(name, None)
     kw.update(nlkw)
     before = disk.snapshot()
     with Facade(cfg["facade"], disk) as fa:
